@@ -202,10 +202,19 @@ def parseOpt (s : String) : Option Opt :=
 
 def parseOpts (s : String) : Option (List Opt) := (items s).mapM parseOpt
 
+/-- a mixed sequence: `f;k` is an option that writes only the Config field number `k` -/
+def parseXOpt (s : String) : Option XOpt :=
+  match s.splitOn ";" with
+  | ["f", k] => k.toNat?.map .flag
+  | _ => (parseOpt s).map .opt
+
+def parseXOpts (s : String) : Option (List XOpt) := (items s).mapM parseXOpt
+
 def handleOptCfg (dflt mods back opts rev accs : String) : String :=
-  match parseTable dflt, parseMods mods, parseBack back, parseOpts opts, parseAccesses accs with
-  | some dflt, some mods, some back, some opts, some accs =>
-    let c := applyOpts opts
+  match parseTable dflt, parseMods mods, parseBack back, parseXOpts opts, parseAccesses accs with
+  | some dflt, some mods, some back, some xs, some accs =>
+    -- the fold over ALL options (Model.applyXOpts); initFromX reads the `c` part only
+    let c := (applyXOpts xs).c
     let ds := if rev == "1" then c.denylist.reverse else c.denylist
     let os := if rev == "1" then c.overrides.reverse else c.overrides
     let st0 : St := ⟨mergeDefaults c.noDefaults c.globals dflt, mods, back⟩
@@ -225,8 +234,10 @@ def parseBindings (s : String) : Option (List (Name × Option Id)) :=
     | _ => none
 
 def handleOptSpec (opts bs : String) : String :=
-  match parseOpts opts, parseBindings bs with
-  | some opts, some bs =>
+  match parseXOpts opts, parseBindings bs with
+  | some xs, some bs =>
+    -- Spec for a mixed sequence: allowedTop of its global-related options (Props.xoptseq_meets_spec)
+    let opts := core xs
     "ok\t" ++ joinOr (bs.map fun nb =>
       bit (allowedTop opts nb.1 nb.2) ++ ":" ++ showOpt (lastOverride opts nb.1) ++ ":" ++
         bit (deniedIn opts nb.1) ++ ":" ++ showOpt (hostAfterDeny opts nb.1) ++ ":" ++ bit (undotted nb.1))
